@@ -149,7 +149,7 @@ def c04():
 def c05():
     obs = []
     # family D: proof serialisation, one query per (chain type -> proof size, edge_bits)
-    for ct, eb, tiers in [(0, 10, "qt"), (0, 29, "qt"), (0, 31, "qt"), (0, 63, "qt"), (0, 1, "t"), (0, 17, "t"), (0, 32, "t"), (0, 48, "t"), (3, 29, "t"), (3, 31, "t"), (3, 32, "t")]:
+    for ct, eb, tiers in [(0, 10, "qt"), (0, 29, "qt"), (0, 31, "qt"), (0, 63, "qt"), (0, 1, "t"), (0, 17, "t"), (0, 32, "t"), (0, 48, "t"), (3, 2, "qt"), (3, 3, "qt"), (3, 29, "qt"), (3, 31, "qt"), (3, 32, "t")]:
         n = 8 if ct == 0 else 42
         b = "proof size %d, edge_bits %d" % (n, eb)
         e = {"VH_CT": ct, "VH_EB": eb}
@@ -157,7 +157,8 @@ def c05():
         u = n + 3
         L = {"memcmp": 400, "memcpy": 400}
         obs.append(ob("c05::proof_roundtrip", tiers, u, "Proof: read(write(p)) == p bit-exactly for every in-range nonce tuple", b + ", all nonces < 2^edge_bits", env=e, tag=tag, est=60 if n == 8 else 900, loops=L, cap_s=900 if "q" in tiers else 3600))
-        obs.append(ob("c05::proof_decode_valid", tiers, u, "Proof::read on any bytes of the exact length: never panics; Ok => exactly n nonces, each < 2^edge_bits, padding bits zero (refused, not normalised)", b + ", all byte strings", env=e, tag=tag, est=120 if n == 8 else 1500, loops=L, cap_s=900 if "q" in tiers else 3600))
+        obs.append(ob("c05::proof_decode_valid", tiers, u, "Proof::read on any bytes of the exact length: never panics; Ok => exactly n nonces, each < 2^edge_bits, padding bits zero (refused, not normalised)", b + ", all byte strings", env=e, tag=tag, est=120 if n == 8 else 1500, loops=L, cap_s=900 if "q" in tiers else 3600,
+                      allow_unsat=["refused (non-zero padding)"] if (n * eb) % 8 == 0 else []))
         if n == 8:
             obs.append(ob("c05::proof_decode_injective", tiers, u, "two accepted encodings of equal proofs are equal byte strings (canonical form)", b + ", two symbolic buffers", env=e, tag=tag, est=240, loops=L, cap_s=900 if "q" in tiers else 3600))
     obs.append(ob("c05::proof_bad_edge_bits_refused", "qt", 12, "edge_bits 0 and 64..=255 refused whatever follows; no panic for any first byte", "16 symbolic bytes, AutomatedTesting", env={"VH_CT": 0}, est=120, loops={"memcmp": 100}))
